@@ -8,8 +8,13 @@ CONSTANT Width
 Vals == {"none", "x", "y"}
 Faults == {"none", "syntax-in-other-neighbour", "syntax-in-this-neighbour", "file-vanished", "parser-exception"}
 VARIABLES u, bytes
-Rows == [old1 : Vals, old2 : Vals, new1 : Vals, new2 : Vals, api : {"none", "x"}, up : BOOLEAN, fault : Faults, changed : BOOLEAN, noarib : BOOLEAN,
-         second : {"none", "later", "atonce"}]
+AllRows == [old1 : Vals, old2 : Vals, new1 : Vals, new2 : Vals, api : {"none", "x"}, up : BOOLEAN, fault : Faults, changed : BOOLEAN, noarib : BOOLEAN,
+         second : {"none", "later", "atonce"}, also : {"none", "families", "noarib"}]
+\* `also`: the configuration which is going to be REFUSED also changes, in the section of the neighbour under test, what its
+\* RIB is built from -- the families (ipv6 unicast, the family of the API route, dropped) or adj-rib-out (switched off): a
+\* refused reload changes nothing, the structures of the running neighbour included.  Only where the neighbour's section
+\* is parsed to its end before the reload fails.
+Rows == {r \in AllRows : r.also # "none" => (r.fault \in {"syntax-in-other-neighbour", "parser-exception"} /\ ~r.noarib /\ ~r.changed /\ r.second # "atonce")}
 \* `second`: a second reload follows -- of the good new configuration when the first one failed (a failed reload must not
 \* break the next one), back to the old configuration when it succeeded -- once the first has been applied ("later") or
 \* at once, before the peer has looked at the first ("atonce")
